@@ -345,3 +345,297 @@ Proof.
     destruct (sign_req o) as [at_end st]. cbn [fst snd]. reflexivity.
   - intros He Hneg. exact (gf_tight _ _ _ G He Hneg n Hn).
 Qed.
+
+(* ================================================================== *)
+(* 3. the scanner on formats without fields                            *)
+(* ================================================================== *)
+
+Lemma scan_literal : forall n s, (length s <= n)%nat -> forall fuel nf t,
+  (2 * length s < fuel)%nat -> literal_text s = Some t ->
+  scan fuel s nf [] false = Some (rev (flush (rev t ++ nf) [])).
+Proof.
+  induction n as [|n IH]; intros s Hn fuel nf t Hf Ht.
+  - destruct s; [|cbn in Hn; lia]. cbn in Ht. inversion Ht; subst.
+    destruct fuel; reflexivity.
+  - destruct s as [|c r].
+    + cbn in Ht. inversion Ht; subst. destruct fuel; reflexivity.
+    + destruct fuel as [|f]; [cbn in Hf; lia|].
+      cbn [literal_text] in Ht. cbn [scan]. cbv zeta.
+      destruct (Z.eqb_spec c ch_us) as [->|Hus].
+      * (* "_d": d is copied *)
+        destruct r as [|d r']; [discriminate|].
+        destruct (literal_text r') as [t'|] eqn:Et; [|discriminate].
+        cbn in Ht. inversion Ht; subst t.
+        change ((ch_us =? ch_hash) || is_pm ch_us) with false. cbn [andb].
+        change ((ch_us =? ch_amp) || (ch_us =? ch_bang)) with false. cbv iota.
+        change (ch_us =? ch_us) with true. cbv iota.
+        rewrite (IH r' ltac:(cbn in Hn; lia) f (d :: nf) t' ltac:(cbn in Hf; lia) Et).
+        cbn [rev]. rewrite <- app_assoc. reflexivity.
+      * destruct (is_special c) eqn:Es; [discriminate|].
+        destruct (literal_text r) as [t'|] eqn:Et; [|discriminate].
+        cbn in Ht. inversion Ht; subst t.
+        unfold is_special in Es.
+        apply orb_false_iff in Es as [Es _]. apply orb_false_iff in Es as [Es E5].
+        apply orb_false_iff in Es as [Es E4]. apply orb_false_iff in Es as [Es E3].
+        apply orb_false_iff in Es as [E1 E2].
+        unfold is_pm. rewrite E1, E2, E3, E4, E5. cbn [orb andb]. cbv iota.
+        rewrite (IH r ltac:(cbn in Hn; lia) f (c :: nf) t' ltac:(cbn in Hf; lia) Et).
+        cbn [rev]. rewrite <- app_assoc. reflexivity.
+Qed.
+
+(* literal characters are copied unchanged, "_c" stands for c: the format is
+   one literal part (no part at all when it is empty) *)
+Lemma scan_literal_copy s t :
+  literal_text s = Some t ->
+  parse_format s = Some (match t with [] => [] | _ => [PNon t] end).
+Proof.
+  intro H. unfold parse_format.
+  rewrite (scan_literal (length s) s (le_n _) (S (2 * length s)) [] t ltac:(lia) H).
+  rewrite app_nil_r. unfold flush.
+  destruct t as [|x t']; [reflexivity|].
+  destruct (rev (x :: t')) eqn:E.
+  - apply (f_equal (@length Z)) in E. rewrite rev_length in E. discriminate.
+  - rewrite <- E, rev_involutive. reflexivity.
+Qed.
+
+Lemma literal_text_plain s :
+  forallb (fun c => negb (is_special c)) s = true -> literal_text s = Some s.
+Proof.
+  induction s as [|c r IH]; intro H; [reflexivity|].
+  cbn [forallb] in H. apply andb_true_iff in H as [Hc Hr].
+  cbn [literal_text]. apply negb_true_iff in Hc.
+  destruct (Z.eqb_spec c ch_us) as [->|_]; [discriminate|].
+  rewrite Hc, (IH Hr). reflexivity.
+Qed.
+
+(* ================================================================== *)
+(* 4. the whole format: values left to right, totality, specification  *)
+(* ================================================================== *)
+
+Fixpoint nfields (parts : list upart) : Z :=
+  match parts with
+  | [] => 0
+  | PNon _ :: r => nfields r
+  | _ :: r => 1 + nfields r
+  end.
+
+Lemma nfields_nonneg parts : 0 <= nfields parts.
+Proof. induction parts as [|[s|c|w o] r IH]; cbn [nfields]; lia. Qed.
+
+Lemma nfields_le_length parts : nfields parts <= zlen (map (fun _ => 0) parts).
+Proof.
+  unfold zlen. induction parts as [|[s|c|w o] r IH]; cbn [nfields map length]; lia.
+Qed.
+
+(* one piece of text per part; the j-th field takes the j-th value *)
+Fixpoint pieces (parts : list upart) (vals : list uval) : option (list str) :=
+  match parts with
+  | [] => match vals with [] => Some [] | _ => None end
+  | PNon s :: r => option_map (cons s) (pieces r vals)
+  | PStrF c :: r =>
+    match vals with
+    | UStr s :: vs =>
+      if c =? ch_bang then
+        match s with
+        | d :: _ => option_map (cons [d]) (pieces r vs)
+        | [] => None
+        end
+      else option_map (cons s) (pieces r vs)
+    | _ => None
+    end
+  | PNumF w o :: r =>
+    match vals with
+    | v :: vs =>
+      match render_num w o v with
+      | UOk t => option_map (cons t) (pieces r vs)
+      | UCrash _ => None
+      end
+    | [] => None
+    end
+  end.
+
+Lemma values_left_to_right : forall parts n vals i out s,
+  render parts n vals i out = UOk s ->
+  exists ps, pieces parts vals = Some ps /\ s = out ++ concat ps.
+Proof.
+  induction parts as [|p r IH]; intros n vals i out s H.
+  - destruct vals; [|discriminate]. cbn in H. inversion H; subst.
+    exists []. split; [reflexivity|]. cbn. now rewrite app_nil_r.
+  - destruct p as [t|c|w o]; cbn [render] in H.
+    + destruct (IH _ _ _ _ _ H) as (ps & Hp & Hs). exists (t :: ps).
+      cbn [pieces]. rewrite Hp. split; [reflexivity|]. cbn [concat]. now rewrite Hs, app_assoc.
+    + destruct (i >=? n); [discriminate|].
+      destruct vals as [|[z|f|sv] vs]; try discriminate.
+      cbn [pieces]. destruct (c =? ch_bang).
+      * destruct sv as [|d sv']; [discriminate|].
+        destruct (IH _ _ _ _ _ H) as (ps & Hp & Hs). exists ([d] :: ps). rewrite Hp.
+        split; [reflexivity|]. cbn [concat]. now rewrite Hs, app_assoc.
+      * destruct (IH _ _ _ _ _ H) as (ps & Hp & Hs). exists (sv :: ps). rewrite Hp.
+        split; [reflexivity|]. cbn [concat]. now rewrite Hs, app_assoc.
+    + destruct (i >=? n); [discriminate|].
+      destruct vals as [|v vs]; [discriminate|].
+      cbn [pieces]. destruct (render_num w o v) as [t|k]; [|discriminate].
+      destruct (IH _ _ _ _ _ H) as (ps & Hp & Hs). exists (t :: ps). rewrite Hp.
+      split; [reflexivity|]. cbn [concat]. now rewrite Hs, app_assoc.
+Qed.
+
+(* rendering a format in two halves: the second half starts with the values
+   the first half did not use *)
+Lemma render_app : forall p1 p2 n vals1 vals2 i out s1,
+  render p1 n vals1 i out = UOk s1 ->
+  render (p1 ++ p2) n (vals1 ++ vals2) i out = render p2 n vals2 (i + nfields p1) s1.
+Proof.
+  induction p1 as [|p r IH]; intros p2 n vals1 vals2 i out s1 H.
+  - destruct vals1; [|discriminate]. cbn in H. inversion H; subst.
+    cbn [app nfields]. now rewrite Z.add_0_r.
+  - destruct p as [t|c|w o]; cbn [render app nfields] in *.
+    + now apply IH.
+    + destruct (i >=? n); [discriminate|].
+      destruct vals1 as [|[z|f|sv] vs]; try discriminate. cbn [app].
+      destruct (c =? ch_bang).
+      * destruct sv as [|d sv']; [discriminate|]. rewrite (IH _ _ _ _ _ _ _ H). f_equal. lia.
+      * rewrite (IH _ _ _ _ _ _ _ H). f_equal. lia.
+    + destruct (i >=? n); [discriminate|].
+      destruct vals1 as [|v vs]; [discriminate|]. cbn [app].
+      destruct (render_num w o v) as [t|k]; [|discriminate].
+      rewrite (IH _ _ _ _ _ _ _ H). f_equal. lia.
+Qed.
+
+(* where the unchanged code does not crash: as many values as fields, a
+   string for every "&"/"!", a non-empty one for "!", a number for every
+   numeric field *)
+Fixpoint types_match (parts : list upart) (vals : list uval) : bool :=
+  match parts with
+  | [] => match vals with [] => true | _ => false end
+  | PNon _ :: r => types_match r vals
+  | PStrF c :: r =>
+    match vals with
+    | UStr s :: vs => (negb (c =? ch_bang) || negb (zlen s =? 0)) && types_match r vs
+    | _ => false
+    end
+  | PNumF _ _ :: r =>
+    match vals with
+    | UInt _ :: vs | UFlt _ :: vs => types_match r vs
+    | _ => false
+    end
+  end.
+
+Definition total_guard (fmt : str) (vals : list uval) : bool :=
+  match parse_format fmt with
+  | Some parts => types_match parts vals
+  | None => false                      (* the format ends in "_" *)
+  end.
+
+Lemma render_total : forall parts n vals i out,
+  types_match parts vals = true -> i + nfields parts <= n ->
+  exists s, render parts n vals i out = UOk s.
+Proof.
+  induction parts as [|p r IH]; intros n vals i out Ht Hn.
+  - destruct vals; [|discriminate]. eexists; reflexivity.
+  - pose proof (nfields_nonneg r) as Hr.
+    destruct p as [t|c|w o]; cbn [types_match render nfields] in *.
+    + now apply IH.
+    + destruct (Z.geb_spec i n); [lia|].
+      destruct vals as [|[z|f|sv] vs]; try discriminate.
+      apply andb_true_iff in Ht as [Hb Ht].
+      destruct (Z.eqb_spec c ch_bang).
+      * destruct sv as [|d sv']; [cbn in Hb; discriminate|]. apply IH; [exact Ht | lia].
+      * apply IH; [exact Ht | lia].
+    + destruct (Z.geb_spec i n); [lia|].
+      destruct vals as [|v vs]; [discriminate|].
+      assert (Hns : forall s, v <> UStr s) by (intros s ->; discriminate).
+      assert (Ht' : types_match r vs = true) by (destruct v; [exact Ht | exact Ht | discriminate]).
+      rewrite (render_num_finish w o v Hns).
+      destruct (py_format_num_ok v (o_comma o) (code_prec w o) Hns) as (body & ->).
+      apply IH; [exact Ht' | lia].
+Qed.
+
+Lemma render_total_on_guard fmt vals :
+  total_guard fmt vals = true -> exists s, using_format fmt vals = UOk s.
+Proof.
+  unfold total_guard, using_format. destruct (parse_format fmt) as [parts|]; [|discriminate].
+  intro H. apply render_total; [exact H|]. pose proof (nfields_le_length parts). lia.
+Qed.
+
+Lemma render_partial : forall parts n vals i out,
+  parts_reasons parts vals = [] -> i + nfields parts <= n ->
+  exists t, render parts n vals i out = UOk (out ++ t) /\ spec_parts parts vals = Some t.
+Proof.
+  induction parts as [|p r IH]; intros n vals i out Hr Hn.
+  - destruct vals; [|discriminate]. exists []. rewrite app_nil_r. split; reflexivity.
+  - pose proof (nfields_nonneg r) as Hnn.
+    destruct p as [t|c|w o]; cbn [parts_reasons render spec_parts nfields] in *.
+    + destruct (IH n vals i (out ++ t) Hr Hn) as (t' & H1 & H2).
+      exists (t ++ t'). rewrite H1, H2, app_assoc. split; reflexivity.
+    + destruct (Z.geb_spec i n); [lia|].
+      destruct vals as [|[z|f|sv] vs]; try discriminate.
+      apply app_nil_both in Hr as [Hb Hr].
+      destruct (Z.eqb_spec c ch_bang).
+      * destruct sv as [|d sv']; [cbn in Hb; discriminate|].
+        destruct (IH n vs (i + 1) (out ++ [d]) Hr ltac:(lia)) as (t' & H1 & H2).
+        exists (d :: t'). rewrite H1, H2, <- app_assoc. split; reflexivity.
+      * destruct (IH n vs (i + 1) (out ++ sv) Hr ltac:(lia)) as (t' & H1 & H2).
+        exists (sv ++ t'). rewrite H1, H2, app_assoc. split; reflexivity.
+    + destruct (Z.geb_spec i n); [lia|].
+      destruct vals as [|v vs]; [discriminate|].
+      apply app_nil_both in Hr as [Hf Hr].
+      assert (Hg : field_guard w o v = true) by (unfold field_guard; now rewrite Hf).
+      destruct (num_field_partial w o v Hg) as (tf & Hrn & Hsf).
+      rewrite Hrn, Hsf.
+      destruct (IH n vs (i + 1) (out ++ tf) Hr ltac:(lia)) as (t' & H1 & H2).
+      exists (tf ++ t'). rewrite H1, H2, app_assoc. split; reflexivity.
+Qed.
+
+(* C19, the whole format, guarded *)
+Lemma using_partial fmt vals :
+  using_guard fmt vals = true ->
+  exists t, using_format fmt vals = UOk t /\ using_spec fmt vals = Some t.
+Proof.
+  unfold using_guard, using_reasons, using_format, using_spec.
+  destruct (parse_format fmt) as [parts|]; [|discriminate].
+  destruct (parts_reasons parts vals) eqn:E; [|discriminate]. intros _.
+  pose proof (nfields_le_length parts).
+  destruct (render_partial parts (zlen (map (fun _ => 0) parts)) vals 0 [] E ltac:(lia))
+    as (t & H1 & H2).
+  exists t. split; assumption.
+Qed.
+
+(* ================================================================== *)
+(* 5. the statement: hand-over from PRINT and the line break           *)
+(* ================================================================== *)
+
+Definition args_vals (args : list parg) : list cell :=
+  flat_map (fun a => match a with AVal c => [c] | _ => [] end) args.
+
+Definition args_end_sep (args : list parg) : bool :=
+  match rev args with
+  | last :: _ => arg_is_sep last
+  | [] => false
+  end.
+
+Lemma using_newline_rule fs args uv s :
+  args <> [] ->
+  map_opt uval_of_cell (args_vals args) = Some uv ->
+  using_format fs uv = UOk s ->
+  emit (Some (CStr fs)) args = OutText (if args_end_sep args then [s] else [s; crlf]).
+Proof.
+  intros Hne Huv Hs. unfold emit, using_format, args_end_sep in *.
+  destruct (parse_format fs) as [parts|]; [|discriminate].
+  destruct (rev args) as [|last rest] eqn:E.
+  - exfalso. apply Hne. rewrite <- (rev_involutive args), E. reflexivity.
+  - fold (args_vals args). rewrite Huv, Hs. destruct (arg_is_sep last); reflexivity.
+Qed.
+
+Lemma using_stmt_partial fs args uv :
+  args <> [] ->
+  map_opt uval_of_cell (args_vals args) = Some uv ->
+  using_guard fs uv = true ->
+  exists calls,
+    exec_print (encoded_args (Some (CStr fs)) args) = OutText calls /\
+    using_stmt_spec fs uv (args_end_sep args) = Some calls.
+Proof.
+  intros Hne Huv Hg. destruct (using_partial fs uv Hg) as (t & H1 & H2).
+  unfold exec_print. rewrite print_protocol_roundtrip.
+  rewrite (using_newline_rule fs args uv t Hne Huv H1).
+  unfold using_stmt_spec. rewrite H2. eexists; split; reflexivity.
+Qed.
